@@ -4,6 +4,7 @@ import Driver.OpsItv
 import Driver.OpsBox
 import Driver.OpsBwd
 import Driver.OpsExpr
+import Driver.OpsCtc
 open Ibex Ibex.Proto
 
 def dispatch (op : String) (ins outs : List String) : String :=
@@ -17,6 +18,9 @@ def dispatch (op : String) (ins outs : List String) : String :=
   | some r => r
   | none =>
   match Ibex.Driver.opsExpr op ins outs with
+  | some r => r
+  | none =>
+  match Ibex.Driver.opsCtc op ins outs with
   | some r => r
   | none => "bad-op"
 
